@@ -84,6 +84,9 @@ def _strategy(tier):
         'drop': st.lists(st.integers(0, 60), min_size=0, max_size=3),
         'drop_ptm_first': st.booleans(),
         'key0': st.sampled_from([0, 1, 7]), 'keystep': st.sampled_from([1, 1, 2]),
+        # the residue is requested by a mutation: the input holds a glycine backbone (N, CA, C, O, canonical names) under the
+        # name GLY, everything else of the requested residue and of its modifications has to be built
+        'mutated': st.lists(st.sampled_from([False, False, False, True]), min_size=2, max_size=2),
     })
 
 
@@ -128,6 +131,7 @@ def _run(case):
     keymap = [{}, {}]
     shown_names = [{}, {}]
     dropped_ptm = False
+    any_mutated = False
     counter = 0
     for ridx, exp in enumerate(expected):
         degree = {}
@@ -145,6 +149,14 @@ def _run(case):
                 # keep the neighbour of a dropped leaf
                 drop.add(cand)
         present = [n for n in exp['names'] if n not in drop]
+        mutated = bool(case.get('mutated', [False, False])[ridx]) and exp['resname'] != 'GLY'
+        if mutated:
+            present = [n for n in ('N', 'CA', 'C', 'O') if n in exp['names']] + \
+                      [n for n in exp['ptm'] if n not in drop and _first_letter(n) != 'H' and all(
+                          _first_letter(m) != 'H' and (m in ('N', 'CA', 'C', 'O') or m in exp['ptm'])
+                          for e in exp['edges'] if n in e for m in e)]
+            drop = set(exp['names']) - set(present)
+            any_mutated = True
         if any(n in exp['ptm'] for n in drop):
             dropped_ptm = True
         order = sorted(range(len(present)), key=lambda i: (case['perm'][(i + 3 * ridx) % len(case['perm'])], i))
@@ -153,7 +165,7 @@ def _run(case):
             by_element.setdefault(_first_letter(n), []).append(n)
         for i in order:
             name = present[i]
-            if case['names'] == 'canonical':
+            if case['names'] == 'canonical' or mutated:
                 shown = name
             elif case['names'] == 'scrambled':
                 counter += 1
@@ -165,6 +177,9 @@ def _run(case):
                          position=np.array([0.13 * counter + 0.1 * i, 0.07 * (i % 4), 0.05 * ridx]), atomid=len(mol) + 1)
             if exp['mods']:
                 attrs['modification'] = list(exp['mods'])
+            if mutated:
+                attrs['resname'] = 'GLY'
+                attrs['mutation'] = [exp['resname']]
             mol.add_node(key, **attrs)
             keymap[ridx][name] = key
             shown_names[ridx][key] = shown
@@ -192,6 +207,9 @@ def _run(case):
                 label, sorted(map(str, got)), sorted(exp['names']), sorted(set(exp['names']) - set(got)),
                 sorted(map(str, set(got) - set(exp['names'])))))
         by_name = {out.nodes[k]['atomname']: k for k in members}
+        wrong = sorted((out.nodes[k]['atomname'], out.nodes[k].get('resname')) for k in members if out.nodes[k].get('resname') != exp['resname'])
+        if wrong:
+            raise Violation('requested-resname', '%s: atoms with another residue name after repair: %r' % (label, wrong))
         for name, k in by_name.items():
             if out.nodes[k].get('element') != _first_letter(name):
                 raise Violation('requested-element', '%s: atom named %s has element %r' % (label, name, out.nodes[k].get('element')))
@@ -212,6 +230,8 @@ def _run(case):
         classes.append('modification-adds-bonded-atoms')
     if dropped_ptm:
         classes.append('modification-atom-left-out')
+    if any_mutated:
+        classes.append('residue-requested-by-mutation')
     if any(exp['mods'] for exp in expected):
         classes.append('modification-requested')
     if any(len(exp['mods']) > 1 for exp in expected):
